@@ -18,7 +18,7 @@
 From Coq Require Import ZArith List QArith Qcanon Permutation Lia.
 From Batchie Require Import Lib.Sexp Lib.Num Lib.PyRt Model.Unrank Model.Dbal
   Proofs.C05Pad Proofs.C05Lse Proofs.C05Kernel Proofs.C05Scorer Proofs.C05Inv Proofs.C05Relabel
-  Proofs.C05Checked Generated.SrcDbal Proofs.C05Source.
+  Proofs.C05Checked Generated.SrcDbal Proofs.C05Source Proofs.C05Dtype.
 Import ListNotations.
 
 (* the vectorised kernel on the 0-padded means / NaN-padded variances of a list of plates =
@@ -449,3 +449,44 @@ Example C05_ex_full_draw : exists ts, triples_of_draw 4 [3; 0; 1; 2]%Z = Ok ts /
 Proof.
   destruct (C05_full_draw_complete 4 [3; 0; 1; 2]%Z ltac:(lia) eq_refl) as (ts & E & Hc & _). now exists ts.
 Qed.
+
+(* ---- the dtype of the dense array (repair fx2: np.result_type over ALL the arrays and the pad value) ----
+   The theorems above read a plate's values out of the dense array unchanged.  At the level of numpy dtypes that needs the dense
+   array to hold every plate's dtype; [pad_dtype] is the dtype the repaired allocation takes (floating-point arrays by precision;
+   checked against the real function on every run, wire op 5). *)
+(* no plate is rounded when it is stored: the dense dtype holds the dtype of EVERY plate of the call, wherever it stands *)
+Theorem C05_pad_dtype_holds_every_plate : forall ds dense,
+  pad_dtype ds = Ok dense -> forall d, In d ds -> dt_le d dense = true.
+Proof. exact pad_dtype_holds_every_plate. Qed.
+Print Assumptions C05_pad_dtype_holds_every_plate.
+
+Theorem C05_pad_dtype_stored_exactly : forall ds dense k,
+  pad_dtype ds = Ok dense -> stored_exactly dense ds k = true.
+Proof. exact pad_dtype_stored_exactly. Qed.
+Print Assumptions C05_pad_dtype_stored_exactly.
+
+(* and nothing is widened beyond need: the dense dtype is the dtype of one of the plates (an all-float32 call stays float32) *)
+Theorem C05_pad_dtype_is_a_plate_dtype : forall ds dense, pad_dtype ds = Ok dense -> In dense ds.
+Proof. exact pad_dtype_is_a_plate_dtype. Qed.
+Print Assumptions C05_pad_dtype_is_a_plate_dtype.
+
+(* the order of the plates (which plate stands first) does not matter *)
+Theorem C05_pad_dtype_order_irrelevant : forall ds ds', Permutation ds ds' -> pad_dtype ds = pad_dtype ds'.
+Proof. exact pad_dtype_perm. Qed.
+Print Assumptions C05_pad_dtype_order_irrelevant.
+
+(* the code BEFORE the repair (dtype of the first plate): a float64 plate behind a float32 plate was rounded, and the two orders
+   of the same two plates were stored at different precisions *)
+Theorem C05_pad_dtype_first_plate_refuted : exists ds dense k,
+  pad_dtype_of true ds = Ok dense /\ stored_exactly dense ds k = false.
+Proof. exact pad_dtype_first_only_rounds. Qed.
+Print Assumptions C05_pad_dtype_first_plate_refuted.
+
+Theorem C05_pad_dtype_first_plate_order_refuted : exists ds ds',
+  Permutation ds ds' /\ pad_dtype_of true ds <> pad_dtype_of true ds'.
+Proof. exact pad_dtype_first_only_order. Qed.
+Print Assumptions C05_pad_dtype_first_plate_order_refuted.
+
+Example C05_ex_pad_dtype : pad_dtype [F32; F64; F16] = Ok F64 /\ pad_dtype [F32; F16] = Ok F32 /\ pad_dtype [] = Err 27%Z
+  /\ pad_dtype_of true [F32; F64; F16] = Ok F32.
+Proof. vm_compute. repeat split. Qed.
